@@ -257,6 +257,20 @@ class Sim:
                 if new != V[sid]:
                     self.sens_violations.append((p.pid, sid, V[sid], new))
 
+    # ---- snapshots (quiescent state only) ------------------------------------------------------------
+    def snapshot(self):
+        assert not self.pending, "snapshot needs a settled simulation"
+        return (list(self.V), [list(l) for l in self._pvars], {k: (list(v) if isinstance(v, list) else v) for k, v in self.driver_of.items()})
+
+    def restore(self, snap):
+        self.V[:] = snap[0]
+        for l, s in zip(self._pvars, snap[1]):
+            l[:] = s
+        self.driver_of.clear()
+        self.driver_of.update({k: (list(v) if isinstance(v, list) else v) for k, v in snap[2].items()})
+        del self.pending[:]
+        self.E.clear()
+
     # ---- introspection ------------------------------------------------------------------------------
     def persistent_vars(self, pid):
         p = self.d.procs[pid]
